@@ -7,7 +7,7 @@ Prints one line per seeded change: DETECTED (exit 1 + VIOLATION) / MISSED (exit 
 import json, os, subprocess, sys, tempfile
 from concurrent.futures import ThreadPoolExecutor
 
-names = sys.argv[1:] or sorted(os.listdir("/verif/seeded"))
+names = sys.argv[1:] or sorted(n for n in os.listdir("/verif/seeded") if os.path.isdir(f"/verif/seeded/{n}"))
 
 def run(name):
     d = f"/verif/seeded/{name}"
